@@ -152,18 +152,18 @@ func withC06(f func(cx *Ctx) []Obligation) func(cx *Ctx) []Obligation {
 }
 
 func init() {
-	registerProp(&propDef{ID: "C03", Rules: withState("C03", withC06(rulesC03)), Floor: 23,
+	registerProp(&propDef{ID: "C03", Rules: withState("C03", withC06(rulesC03)), Floor: 24,
 		Expl: "In CircuitFixed.Define: the 16-public-inputs refusal; every element of the public [4] array is asserted equal to a loop accumulator acc' = limb + M·acc (recurrence shape extracted from the SSA phi), whose limbs are elements [j·T,(j+1)·T) of the inner proof's public inputs (partition of all 16); the same slice element is range-checked on every path to a width w with 2^w ≤ M (injectivity: HashNoPad reduces inputs mod p, so the inner proof fixes limbs only mod p); M^T ≤ 2^128. Plus C06: the width checks relied on are live in every backend configuration (dispatch, deferred drain, the chip that collects them is never copied).",
 		Rule: "one obligation per clause O3.1–O3.4, plus the C06 obligations"})
-	registerProp(&propDef{ID: "C04", Rules: withState("C04", rulesC04), Floor: 4,
+	registerProp(&propDef{ID: "C04", Rules: withState("C04", rulesC04), Floor: 5,
 		Expl: "For every circuit type of the module whose Define reaches VerifierChip.Verify, the verifierData argument is definitely a field of the circuit and that field's gnark visibility (struct tag parsed like gnark's schema walker) is '-' or public, i.e. not chosen by the prover. Liveness of the key (digest absorbed first, ConstantSigmasCap is caps[0]) is decided under C11 and C12.",
 		Rule: "one obligation per circuit type reaching the verifier"})
 	registerProp(&propDef{ID: "C11", Rules: withState("C11", func(cx *Ctx) []Obligation {
 		return append(rulesC11(cx), ruleNoCopy(cx, "C11", "challenger", "Chip", "it owns the sponge state and the input/output buffers of the transcript")...)
-	}), Floor: 24,
+	}), Floor: 25,
 		Expl: "Event-sequence analysis of the challenge derivation reachable from VerifierChip.Verify: the calls to the two transcript primitives (ObserveElement / GetChallenge) are extracted with their static call paths in control-flow order; every squeeze is identified by the challenge field that receives its result (result tagging by call path), every observation by the proof data it depends on; the collapsed sequence must equal plonky2's order; every event executes on every path inside full-range loops over the observed lists; the openings' content order (append-chain content-sequence analysis) is the reference order at both uses; ObserveElement must-stores an empty output buffer; the challenger (sponge state and buffers) is never copied. The sponge arithmetic over arbitrary histories is not decided.",
 		Rule: "one obligation for the order, one per distinct event (binding/coverage), one for the openings order, one for the buffer reset"})
-	registerProp(&propDef{ID: "C01", Floor: 107, Rules: func(cx *Ctx) []Obligation {
+	registerProp(&propDef{ID: "C01", Floor: 109, Rules: func(cx *Ctx) []Obligation {
 		obs := append(rulesC01Own(cx), rulesConfigCoverage(cx, "C01/O1.4")...)
 		for _, f := range []func(*Ctx) []Obligation{rulesC11, rulesC12, rulesC13, rulesC14, rulesC16, rulesC17, rulesC20, rulesC06} {
 			obs = append(obs, f(cx)...)
@@ -173,21 +173,21 @@ func init() {
 	},
 		Expl: "Structural necessary conditions of 'tampered or mismatched proofs are rejected': (own) both circuits call VerifierChip.Verify on every path with their own fields; Verify calls the PLONK check and FRI verification on every path with the derived challenges, HashNoPad(publicInputs), the proof's openings/opening proof and the caps in order; every input leaf of the proof, the verifier data and the public inputs (enumerated from the types) influences at least one must-executed constraint; (union) the obligations of C11 (binding and order of the transcript), C12, C13, C14, C16, C17, C20 and C06; (state) no package-level or chip-level state survives from one circuit, proof or call to the next (tabled exceptions). Decides that every input is bound and every verification equation is emitted on every path for every element — not that the equations are the right polynomials.",
 		Rule: "own wiring/liveness obligations plus the union of the listed properties' obligations"})
-	registerProp(&propDef{ID: "C18", Rules: withState("C18", rulesC18), Floor: 209,
+	registerProp(&propDef{ID: "C18", Rules: withState("C18", rulesC18), Floor: 210,
 		Expl: "Regular-language analysis of the gate registry: the 14 patterns are read from the program (constant arguments of regexp.MustCompile stored under the keys of gateRegexHandlers), compiled with regexp/syntax and wrapped as 'contains a match' (the lookup is unanchored); by product/subset constructions against a reference grammar of plonky2's Debug-format identifiers it is decided that every supported identifier is matched by its own pattern and by no other (so the result is independent of Go's randomised map iteration), that identifiers of unimplemented gates (lookup, lookup-table, u32 arithmetic/add-many/subtraction/range-check, comparison, interleave gates, other extension degrees) match no pattern or are refused by the handler; plus: the no-match exit panics and every return is a handler result; each capture group flows through an error-checked strconv parse into the field of the same meaning (dependency analysis per constant map key); registry ↔ Gate implementations is a bijection; circuits with hiding are refused.",
 		Rule: "one obligation per (gate template × pattern), per unimplemented template, per capture group, per parse call, per registry entry"})
-	registerProp(&propDef{ID: "C19", Rules: withState("C19", rulesC19), Floor: 69,
+	registerProp(&propDef{ID: "C19", Rules: withState("C19", rulesC19), Floor: 78,
 		Expl: "Decoder discipline: every json.Unmarshal error is checked and refuses (including inside the custom UnmarshalJSON methods); every leaf of the raw decoder structs is uint64/string/bool (so encoding/json itself refuses negative, fractional, over-64-bit values and scalars for lists); every big.Int.SetString uses constant base 10 and its result is used unmerged; copy completeness (each Goldilocks/BN254 leaf of the decoded proof and verifier data depends on the raw field of the same name and on no other raw field — dependency analysis of the decoding entry points); position (every copy loop reachable from the decoders is a plain 0..len-1 loop over a complete list and accesses elements at its own index); unconditional copy (O19.6: every store, append and call of a decoding function executes on every non-refusing path, once per iteration of its loops — no data-dependent skip). Value equality for arbitrary documents is not decided; ReadCommonCircuitData's configuration copy is covered by the positive tests' exact expectations.",
 		Rule: "one obligation per Unmarshal site, raw type, SetString site, decoded leaf, copy loop"})
-	registerProp(&propDef{ID: "C02", Rules: withState("C02", rulesC02), Floor: 38,
+	registerProp(&propDef{ID: "C02", Rules: withState("C02", rulesC02), Floor: 44,
 		Expl: "Partial: (W3) every constant width that reaches the n-bit range primitive through the static call graph is a multiple of the commit checker's base width, the only configuration-dependent width is 64 − ProofOfWorkBits and it is a positive multiple of 16 for every common_circuit_data.json in the repository (else commit-based builds panic in the deferred drain); (dispatch) C06's obligations — no backend skips or mis-selects checks, so the verdict cannot depend on the backend through a dropped constraint; (W2) honest fit by the magnitude analysis (abstract interpretation of the gadget layer over upper bounds, context-sensitive, constant-propagating loop counters): in every context reaching a reduction the value is below p·2^n for the quotient width in force, every operand reaching MulAdd / Inverse is canonical (the hints refuse larger ones), no intermediate value reaches the BN254 field, and upper-layer functions exchange canonical values only — for every configuration and proof shape, under the stated input assumption (proof data and constants canonical); (sponge) a partial last chunk keeps the previous lanes, as needed for the 97-input circuit; (HB) honest hints fit: for every NewHint site the outputs are traced (field- and call-site-sensitive) to the range check their gadget applies, and an interval analysis of the hint body with the facts of its dominating branches shows that the value stored into results[k] stays below that bound on every path returning nil and is never a possibly-nil *big.Int. Acceptance of concrete proofs (the algebraic identities themselves) is not decided.",
 		Rule: "one obligation per width reaching the range primitive, per circuit description, per C06 rule, per reduction / hint-operand site (worst case over contexts), per package for the interface invariant"})
 	registerProp(&propDef{ID: "C10", Rules: withState("C10", func(cx *Ctx) []Obligation {
 		return append(append(rulesC10(cx), rulesMulAcc(cx, "C10", "poseidon")...), ruleNoEmptyLimb(cx)...)
-	}), Floor: 10,
+	}), Floor: 12,
 		Expl: "Narrow structural clauses only — the injectivity half of C10: in HashNoPad and HashOrNoop the limbs are packed by a loop accumulator acc' = acc + limb_k·base^k (recurrence extracted from the SSA phi; base a compile-time constant ≥ 2^64; exponent = the limb's own index; number of limbs per element bounded — by the slice bounds lo+c / min(_, lo+c) or by a dominating len(input) ≤ c — with base^T ≤ r), and ToVec splits the canonical bit decomposition (no explicit width) into consecutive disjoint chunks of ≤ 63 bits. Plus the MulAcc accumulator discipline (MA) at every MulAcc site of the poseidon package (BN254 permutation, packing): the accumulator is owned and dead after the call, so the computed hash does not depend on the R1CS builder re-using storage. Plus absorb tiling: the chunk and limb loops of HashNoPad tile [0, len(input)) — start 0, while index < len, stride equal to the width of the window [i, min(len, i+W)) — so every element is absorbed exactly once for every length; every return of HashNoPad hands back element 0 of the sponge state (no shortcut return for some lengths). Agreement of the BN254 Poseidon permutation, sponge and shortcut with the reference PoseidonBN128 for all inputs is numeric and not decided.",
 		Rule: "one obligation per packing accumulator, for the chunking, the tiling, and per MulAcc site"})
-	registerProp(&propDef{ID: "C15", Rules: withState("C15", rulesC15), Floor: 9,
+	registerProp(&propDef{ID: "C15", Rules: withState("C15", rulesC15), Floor: 10,
 		Expl: "Narrow structural clauses only — the selector-filtering and position-wise-sum half of C15, decided on the SSA of plonk/gates: EvaluateGateConstraints calls evalFiltered once for every gate with the gate's own row, selectorIndices[i], groups[selectorIndices[i]] and NumSelectors(); the results are added position-wise into a zeroed vector of numGateConstraints that is returned; evalFiltered reads the selector constant before RemovePrefix, strips exactly numSelectors constants before the gate sees them, multiplies every returned constraint by the filter; computeFilter is ∏(i−s) over [start,end) skipping exactly i = row, times (UNUSED_SELECTOR−s) iff several selectors, UNUSED_SELECTOR = 2^32−1. Equality of each Gate.EvalUnfiltered with plonky2's gate polynomial for all wire values is numeric and NOT decided.",
 		Rule: "one obligation per structural clause of the filter/sum code"})
 	registerProp(&propDef{ID: "C20", Rules: withState("C20", func(cx *Ctx) []Obligation {
@@ -199,24 +199,24 @@ func init() {
 			}
 		}
 		return obs
-	}), Floor: 21,
+	}), Floor: 22,
 		Expl: "T3 guard table: 18 refusals reachable from VerifierChip.Verify keyed by the compared quantities (lengths of proof lists vs configuration values, normalised to 'continues iff X op Y'), each must execute on every path and for every element of the list it validates (full-range loops); plus the 16-public-inputs refusal of CircuitFixed.Define and the hiding refusal of ReadCommonCircuitData. Decides presence, operator and coverage of the guards; that a shape change not covered by a guard is rejected by the equations is not decided.",
 		Rule: "one obligation per guard of the hand-confirmed table (DESIGN appendix A.4); the same comparison made at several sites must be found at each"})
 	registerProp(&propDef{ID: "C17", Rules: withState("C17", withC06(rulesC17)), Floor: 36,
 		Expl: "T2 field coverage generated from go/types: for every Goldilocks-typed leaf of variables.Proof (both coordinates of extension values) the canonical range check gl.Chip.RangeCheck is applied to the element itself on every path from VerifierChip.Verify, inside full-range loops over the complete field (no narrowing slice, no conditional, no early exit). That the canonical range check is a real check in every backend is C06 (included). Adding a Goldilocks field to the proof structure without extending the sweep is a violation by construction.",
 		Rule: "one obligation per leaf access path and coordinate (enumerated from the type), each discharged by a distinct call path"})
-	registerProp(&propDef{ID: "C14", Rules: withState("C14", withC06(func(cx *Ctx) []Obligation { return append(rulesC14(cx), rulesW3(cx, "C14")...) })), Floor: 25,
+	registerProp(&propDef{ID: "C14", Rules: withState("C14", withC06(func(cx *Ctx) []Obligation { return append(rulesC14(cx), rulesW3(cx, "C14")...) })), Floor: 26,
 		Expl: "From VerifierChip.Verify: an n-bit range check executes on every path on the value stored in FriChallenges.FriPowResponse of the derived challenges, with width expression 64 − <FRI config>.ProofOfWorkBits, and that value depends on the proof's PowWitness; the width check is live in every backend (C06 obligations) and constant widths are aligned (W3). The transcript order (witness observed before the response is squeezed) is C11's obligation. The arithmetic 'width w ⇔ ≥ 64−w leading zeros of a canonical 64-bit value' is argued in DESIGN.md, not checked.",
 		Rule: "one obligation per clause"})
-	registerProp(&propDef{ID: "C12", Rules: withState("C12", func(cx *Ctx) []Obligation { return append(rulesC12(cx), rulesC10(cx)...) }), Floor: 8,
+	registerProp(&propDef{ID: "C12", Rules: withState("C12", func(cx *Ctx) []Obligation { return append(rulesC12(cx), rulesC10(cx)...) }), Floor: 12,
 		Expl: "From VerifierChip.Verify: per query round (loop covering every round, co-indexed by a refusal guard) and per tree, an equality executes on every path between a digest that depends on the opened leaf (both coordinates of all evaluations for commit-phase trees), on every sibling (full-range hashing loop) and on the query-index bits, and a cap entry selected by four bits from the top CapHeight bits of the same decomposition; initial tree t is compared against caps[t] in the order [ConstantSigmasCap, WiresCap, PlonkZsPartialProductsCap, QuotientPolysCap]. The Merkle path is folded unconditionally (O12.4): the running digest of the next level is exactly element 0 of the permutation applied at this level, feeds that permutation, and is compared as it is. Plus C10's structural clauses (the leaf is hashed through an injective, non-wrapping limb packing that absorbs every element once). Left/right ordering and the lookup arithmetic are pinned by the positive tests and not claimed.",
 		Rule: "one obligation per tree family, index provenance, caps order, packing accumulator"})
-	registerProp(&propDef{ID: "C13", Rules: withState("C13", rulesC13), Floor: 9,
+	registerProp(&propDef{ID: "C13", Rules: withState("C13", rulesC13), Floor: 11,
 		Expl: "Presence and coverage only: per round and step the two coordinate equalities between the bit-selected claimed evaluation and the running evaluation; after the steps the two equalities against the final polynomial at the folded point; the invertibility assertions; coverage of all rounds; the running evaluation is recomputed in every step from that step's data (no value stored into it in the step loop depends on its previous value) and is only ever compared (O13.6). The domain point, combination and interpolation formulas are not decided.",
 		Rule: "one obligation per equality coordinate / assertion / loop coverage"})
 	registerProp(&propDef{ID: "C16", Rules: withState("C16", func(cx *Ctx) []Obligation {
 		return append(append(append(rulesC16(cx), rulesConfigCoverage(cx, "C16/O16.3")...), ruleC16Windows(cx)...), ruleC16ChainEnds(cx)...)
-	}), Floor: 8,
+	}), Floor: 10,
 		Expl: "Presence and coverage only: for every challenge round (full-range loop, count = Config.NumChallenges) an extension equality (both coordinates) between the vanishing value (depending on gates, wires, sigmas, Z, Z(next), partial products, public-input hash, challenges) and Z_H·quotient (from QuotientPolys via ReduceWithPowers); the L₀ division asserts existence; the partial-product openings are read through consecutive per-round windows (O16.5); the chain of running products is closed at both ends on every path — Z(ζ) and Z(gζ) are read and used unconditionally by the function that closes the chain, so a shape with no partial products still gets its check (O16.6). The formula is not decided.",
 		Rule: "one obligation per coordinate and assertion"})
 	registerProp(&propDef{ID: "C05", Rules: withState("C05", withC06(func(cx *Ctx) []Obligation {
@@ -227,18 +227,18 @@ func init() {
 	registerProp(&propDef{ID: "C07", Rules: withState("C07", func(cx *Ctx) []Obligation {
 		obs := append(append(rulesC07(cx), rulesMulAcc(cx, "C07", "goldilocks")...), rulesParamRelevance(cx, "C07", func(n string) bool { return !strings.Contains(n, "Extension") && !strings.Contains(n, "Algebra") })...)
 		return append(obs, rulesHintBodies(cx, "C07")...)
-	}), Floor: 24,
+	}), Floor: 30,
 		Expl: "Narrow structural clauses only: Inverse's product assertion is conditioned on IsZero(x) and the flag derives from it; Reduce forwards the never-reassigned constant RANGE_CHECK_NB_BITS ≥ 144; every reducing method of gl.Chip returns a hint output confined to [0,p) by a must-executed canonical range check. Plus the MulAcc accumulator discipline (MA) at every MulAcc site of the goldilocks package: the accumulator is owned and dead after the call, so the result does not depend on the R1CS builder re-using its storage. Plus honest hints (HB): every hint output stays below the bound of the range check its gadget applies, on every path of the hint body that returns nil, and no possibly-nil *big.Int is handed back (interval analysis of the hint bodies; inverse of zero must produce a value). Numerical exactness for all operands is not decided.",
 		Rule: "one obligation per clause / per reducing method of gl.Chip (enumerated from the method set) / per MulAcc site"})
 	registerProp(&propDef{ID: "C08", Rules: withState("C08", func(cx *Ctx) []Obligation {
 		return append(append(append(rulesC08(cx), rulesC08Widths(cx)...), rulesMagnitude(cx, "C08")...), rulesParamRelevance(cx, "C08", func(n string) bool { return strings.Contains(n, "Extension") })...)
-	}), Floor: 42,
+	}), Floor: 43,
 		Expl: "Narrow structural clauses only: InverseExtension must-asserts IsZero(a[0])·IsZero(a[1]) == 0 (zero test over both coordinates); DivExtension passes its divisor itself to InverseExtension on every path; every quotient width that reaches the witnessed reduction (including from the extension API) admits a single result (W1) and the reduction/MulAdd hint discipline holds (R1). The field identities are not decided.",
 		Rule: "one obligation per clause"})
 	registerProp(&propDef{ID: "C09", Rules: withState("C09", func(cx *Ctx) []Obligation {
 		obs := append(append(append(rulesC09(cx), rulesC09Function(cx)...), ruleSpongeOverwrite(cx)...), ruleSpongeSqueeze(cx)...)
 		return append(obs, ruleAbsorbTiling(cx, "C09/O9.4/absorb-tiling", "poseidon", "(*GoldilocksChip).HashNToMNoPad")...)
-	}), Floor: 28,
+	}), Floor: 30,
 		Expl: "Narrow structural clauses only: HashNoPad reduces every input (full-range loop) and hands only reduction results to the sponge; the permutation is a function: R1/W1 for every hint site reached from the Goldilocks Poseidon (widths of the s-box reductions); sibling constant tables used by the base and extension implementations agree element-wise and every table constant is < p; the sponge absorbs in overwrite mode, its chunk loop tiles [0, len(input)) (start 0, while i < len, stride = rate, element i+j with j < rate) and it squeezes from the rate part only. Equality with plonky2's Poseidon for all inputs is not decided.",
 		Rule: "one obligation per clause, per reaching width, per table"})
 	registerProp(&propDef{ID: "C06", Rules: withState("C06", rulesC06), Floor: 20,
